@@ -87,12 +87,20 @@ def _rrq_frame(kind, fstate):
             E.prove('frame_received:stream_released_once', [x[2][0] for x in c.finishes()] == [sid])
         else:
             E.prove('frame_received:cancelled_future_left_alone', len(ev) == 0 and fut.attrs['state'] == 'cancelled')
+            # the race resolves when the queued done-callback runs: however the response and the cancellation crossed,
+            # the interaction is over and the stream has to be released (exactly once)
+            for cb, f_ in list(E.path.ghost.get('call_soon', [])):
+                E.call(cb, [f_])
+            E.prove('@C10,C07,C09:race:stream_released_once_the_done_callback_has_run[response crossed the cancellation]',
+                    [x[2][0] for x in c.finishes()] == [sid])
+            E.prove('@C08,C09:race:at_most_one_CANCEL_and_nothing_else_emitted',
+                    len(c.emissions()) <= 1 and all(is_frame(x[2][0], 'CancelFrame') for x in c.emissions()))
     return run
 
 
 for _k in ('payload', 'error'):
     for _s in ('pending', 'cancelled'):
-        harness('k.rr_requester.frame_received[%s,future=%s]' % (_k, _s), ['C07', 'C08', 'C10', 'C01', 'C11', 'C12'],
+        harness('k.rr_requester.frame_received[%s,future=%s]' % (_k, _s), ['C07', 'C08', 'C09', 'C10', 'C01', 'C11', 'C12'],
                 functions=[RRQ + '.frame_received', 'rsocket/frame.py::error_frame_to_exception', 'rsocket/helpers.py::payload_from_frame'],
                 replay='k_rr_requester',
                 assumptions=['asyncio.Future model: set_result/set_exception on a done future raise InvalidStateError; done-callbacks '
